@@ -42,13 +42,24 @@ Definition fold_minus (fold_min : bool) (l : lit) : lit :=
   | LNeg _ => LNeg l
   end.
 
-(* linter: Expression::SignedIntegerLiteral / BitIntegerLiteral arms *)
-Fixpoint lint (l : lit) (t : prim) : bool :=
-  match l with
-  | LSigned v => if v <? 0 then v <? vt_min t else vt_max t <? v
-  | LBit v => vt_max t <? v
-  | LNeg l' => lint l' t
+(* linter.rs Linter::max_u128: the largest value of the type ON THE TARGET - `usize` is 32 bits wide
+   when compiling for WebAssembly (Compiler::for_wasm sets is_usize_32_bits; repair of D54), otherwise
+   value_type.rs max_u128 (Gen/TypeTables.v). *)
+Definition lint_max (usize_bits : Z) (t : prim) : Z :=
+  match t with
+  | Usize => if usize_bits =? 32 then 2 ^ 32 - 1 else vt_max t
+  | _ => vt_max t
   end.
+
+(* linter: Expression::SignedIntegerLiteral / BitIntegerLiteral arms *)
+Fixpoint lint_on (usize_bits : Z) (l : lit) (t : prim) : bool :=
+  match l with
+  | LSigned v => if v <? 0 then v <? vt_min t else lint_max usize_bits t <? v
+  | LBit v => lint_max usize_bits t <? v
+  | LNeg l' => lint_on usize_bits l' t
+  end.
+(* the host target; also what the pinned commit did on every target *)
+Definition lint (l : lit) (t : prim) : bool := lint_on 64 l t.
 
 (* generator: bit pattern of the constant, width w = vt_bits usize_bits t.
    LLVMConstInt(ty, bits64, sign_extend) = the 64-bit word sign- or zero-extended
